@@ -132,6 +132,7 @@ def main():
         'disagreements_checked': len(ctx.disagreements),
         'oracle_failures': len(ctx.failures),
         'known_findings_hit': sorted(known_hits),
+        'failure_keys': sorted(set(f['key'] for f in ctx.failures))[:100],
         'exhaustive': bool(ctx.exhaustive),
         'explanation': getattr(mod, 'EXPLANATION', ''),
         'broken_obligations': pr['broken'],
